@@ -208,6 +208,166 @@ def iwls_glue(chk, n, user_chol):
     return obs
 
 
+def iwls_monolithic(chk):
+    """cross-check that does not depend on how the kernel is organised internally: the whole IWLS transition for n = 2, no callee re-bound
+    (only cholesky is a contract), against the closed-form Metropolis-Hastings ratio for the Gaussian proposal N(x + s^2/2 F^-1 g, s^2 F^-1)"""
+    import liesel.goose as gs
+    import liesel.goose.iwls as iwls
+    from liesel.goose.epoch import EpochConfig, EpochType
+    n = 2
+    k = iwls.IWLSKernel(["x"])
+    k.set_model(gs.DictInterface(lp_pois))
+    ep = EpochConfig(EpochType.POSTERIOR, 10, 1, None).to_state(1, 0)
+
+    def g(key, ss, x, y, tau):
+        out = k._standard_transition(key, iwls.IWLSKernelState(ss), {"x": x, "y": y, "tau": tau}, ep)
+        return dict(acc=out.info.acceptance_prob, x=out.model_state["x"], moved=out.info.position_moved)
+    key = jax.random.PRNGKey(8)
+    ss, tau = z3.Real("mono_s"), z3.Real("mono_tau")
+    x, y = sym_array("mono_x", (n,)), sym_array("mono_y", (n,))
+    dom = {"mono_s": (0.3, 1.0), "mono_tau": (0.2, 1.5)}
+    enc = chk.note_enc(Enc("IWLS[n=2] whole transition (no callee stubs)", g, (key, 0.5, jnp.zeros(n) + 0.1, jnp.ones(n), 1.0), (root_key("k"), sc(ss), x, y, sc(tau)), chol="contract",
+                           key_roots={"k": key}, domain=dom))
+    import liesel.goose.iwls_utils as iu
+    c0 = float(iu.mvn_log_prob(jnp.zeros(n), jnp.zeros(n), jnp.eye(n)))
+
+    def solve_llt(L, r):
+        """v with L L^T v = r (n = 2, forward then backward substitution)"""
+        u0 = r[0] / L[0, 0]
+        u1 = (r[1] - L[1, 0] * u0) / L[1, 1]
+        v1 = u1 / L[1, 1]
+        v0 = (u0 - L[1, 0] * v1) / L[0, 0]
+        return [v0, v1]
+
+    def pieces(V):
+        """oracle pieces shared by the two obligations; None if the trace does not have the expected shape (two factorizations, one normal draw,
+        returned block = if-then-else between a proposal term and the current point)"""
+        if len(V.I.chols) != 2 or not V.I.normals:
+            return None
+        (A1, L1), (A2, L2) = V.I.chols
+        z = cells(V.I.normals[0])
+        outx = cells(V.out["x"])
+        if len(z) != n or not all(z3.is_app_of(t, z3.Z3_OP_ITE) for t in outx):
+            return None
+        P, acc_cond = [], []                     # the encoded proposal: the branch of the accept/reject select that is not the current point
+        for t, xi in zip(outx, list(x)):
+            c_, a_, b_ = t.arg(0), t.arg(1), t.arg(2)
+            if b_.eq(xi):
+                P.append(a_)
+                acc_cond.append(c_)
+            elif a_.eq(xi):
+                P.append(b_)
+                acc_cond.append(z3.Not(c_))
+            else:
+                return None
+        exp, log = V.exp, V.log
+        lp = lambda xv: sum(y[i] * xv[i] - exp(xv[i]) for i in range(n)) - tau * (xv[0] + xv[1]) * (xv[0] + xv[1]) / 2
+        grad = lambda xv: [y[i] - exp(xv[i]) - tau * (xv[0] + xv[1]) for i in range(n)]
+        F = lambda xv: [[(exp(xv[i]) if i == j else 0) + tau for j in range(n)] for i in range(n)]
+        xs = list(x)
+        v = solve_llt(L1, grad(xs))
+        mu = [xs[i] + ss * ss / 2 * v[i] for i in range(n)]
+        hy = [ss > 0, tau > 0] + [L1[i, i] > 0 for i in range(n)] + [L2[i, i] > 0 for i in range(n)]
+        return dict(A1=A1, L1=L1, A2=A2, L2=L2, z=z, P=P, lp=lp, grad=grad, F=F, xs=xs, mu=mu, hy=hy, outx=outx, acc_cond=acc_cond)
+
+    def goal_proposal(V):
+        if V.replay:
+            return [], z3.BoolVal(True)
+        q = pieces(V)
+        if q is None:
+            return [], z3.BoolVal(False)
+        L1, z, mu, P, xs = q["L1"], q["z"], q["mu"], q["P"], q["xs"]
+        w1 = z[1] / L1[1, 1]
+        w0 = (z[0] - L1[1, 0] * w1) / L1[0, 0]
+        prop = [mu[0] + ss * w0, mu[1] + ss * w1]
+        mv = cells(V.out["moved"])[0]
+        return q["hy"], z3.And(all_eq(q["A1"], np.array(q["F"](xs), dtype=object)), *[P[i] == prop[i] for i in range(n)],
+                               *[q["acc_cond"][i] == mv for i in range(n)])
+
+    def goal(V):
+        """for an ARBITRARY proposal p (the encoded proposal term is generalised to a fresh constant): the reported probability is the
+        Metropolis-Hastings ratio with q(.|u) = N(u + s^2/2 F(u)^-1 grad(u), s^2 F(u)^-1), F(p) factorised by the second cholesky"""
+        if V.replay:
+            return [], z3.BoolVal(True)
+        q = pieces(V)
+        if q is None:
+            return [], z3.BoolVal(False)
+        L1, L2, mu, P, xs, lp, grad, F = q["L1"], q["L2"], q["mu"], q["P"], q["xs"], q["lp"], q["grad"], q["F"]
+        log, exp = V.log, V.exp
+        d1 = [P[i] - mu[i] for i in range(n)]
+        f0 = (L1[0, 0] * d1[0] + L1[1, 0] * d1[1]) / ss
+        f1 = (L1[1, 1] * d1[1]) / ss
+        fwd = log(L1[0, 0]) + log(L1[1, 1]) - 2 * log(ss) - (f0 * f0 + f1 * f1) / 2 + V.c(np.float32(c0))
+        v2 = solve_llt(L2, grad(P))
+        mu2 = [P[i] + ss * ss / 2 * v2[i] for i in range(n)]
+        d = [xs[i] - mu2[i] for i in range(n)]
+        t0 = (L2[0, 0] * d[0] + L2[1, 0] * d[1]) / ss
+        t1 = (L2[1, 1] * d[1]) / ss
+        bwd = log(L2[0, 0]) + log(L2[1, 1]) - 2 * log(ss) - (t0 * t0 + t1 * t1) / 2 + V.c(np.float32(c0))
+        e = exp(lp(P) - lp(xs) + bwd - fwd)
+        tol = z3.RealVal("1/10000")
+        dacc = cells(V.out["acc"])[0] - z3.If(e <= 1, e, 1)
+        return q["hy"], z3.And(all_eq(q["A2"], np.array(F(P), dtype=object)), dacc <= tol, dacc >= -tol), list(P)
+
+    def replay(ob, model, rng):
+        """the real kernel at the solver's point (and two others), proposals recorded through the model interface, against numpy"""
+        from ..zeval import model_value
+        pts = []
+        if model is not None:
+            try:
+                pts.append((float(model_value(model, ss, 0.5)), [float(model_value(model, c, 0.1)) for c in cells(x)], [float(model_value(model, c, 1.0)) for c in cells(y)], float(model_value(model, tau, 1.0))))
+            except Exception:
+                pass
+        pts += [(0.7, [0.2, -0.3], [1.0, 2.0], 0.8), (1.6, [0.5, 0.1], [0.0, 3.0], 0.4)]
+        worst = None
+        for (s_, x_, y_, t_) in pts:
+            if not (s_ > 0 and t_ > 0):
+                continue
+            seen = []
+
+            class Rec(gs.DictInterface):
+                def update_state(self, position, model_state):
+                    if not any(isinstance(v_, jax.core.Tracer) for v_ in position.values()):
+                        seen.append({k_: np.asarray(v_) for k_, v_ in position.items()})
+                    return super().update_state(position, model_state)
+            kk = iwls.IWLSKernel(["x"])
+            kk.set_model(Rec(lp_pois))
+            for sd in range(2):
+                del seen[:]
+                out = kk._standard_transition(jax.random.PRNGKey(sd), iwls.IWLSKernelState(s_), {"x": jnp.asarray(x_, jnp.float32), "y": jnp.asarray(y_, jnp.float32), "tau": jnp.asarray(t_, jnp.float32)}, ep)
+                if not seen:
+                    continue
+                xp = np.asarray(seen[0]["x"], dtype=np.float64)
+                xv, yv = np.asarray(x_, dtype=np.float64), np.asarray(y_, dtype=np.float64)
+                lpn = lambda q: float(np.sum(yv * q - np.exp(q)) - 0.5 * t_ * np.sum(q) ** 2)
+                gr = lambda q: yv - np.exp(q) - t_ * np.sum(q)
+                Fm = lambda q: np.diag(np.exp(q)) + t_
+
+                def logq(to, frm):
+                    Fi = Fm(frm)
+                    m_ = frm + s_ ** 2 / 2 * np.linalg.solve(Fi, gr(frm))
+                    P = Fi / s_ ** 2
+                    dd = to - m_
+                    return float(0.5 * np.linalg.slogdet(P)[1] - 0.5 * dd @ P @ dd - np.log(2 * np.pi))
+                want = min(1.0, float(np.exp(lpn(xp) - lpn(xv) + logq(xv, xp) - logq(xp, xv))))
+                got = float(out.info.acceptance_prob)
+                dev = abs(got - want)
+                if worst is None or dev > worst[0]:
+                    worst = (dev, dict(step_size=s_, x=x_, y=y_, tau=t_, key=[0, sd]), dict(reported_acceptance_prob=got, metropolis_hastings_ratio=want, realised_proposal=xp.tolist()))
+        if worst is None:
+            return dict(reproduced=False, note="no proposal observed")
+        return dict(reproduced=bool(worst[0] > 2e-3), inputs=worst[1], observed=worst[2],
+                    note="reported acceptance probability vs min(1, pi(x')q(x|x')/(pi(x)q(x'|x))) for the realised proposal and q = N(x + s^2/2 F^-1 g, s^2 F^-1) (float64 numpy)")
+    ob1 = Obligation("IWLS[n=2], whole transition without re-bound callees: information = F(x); the proposal is mu(x) + s L(x)^-T z with z the standard normal draw; the returned block is the proposal if moved, else x",
+                     [enc], goal_proposal, signature="IWLS:monolithic-proposal", replay=replay, timeout_s=240, twin=False)
+    ob2 = Obligation("IWLS[n=2], whole transition without re-bound callees: for an arbitrary proposal p, information at p = F(p) and reported acceptance = min(1, exp(log pi(p) - log pi(x) + log q(x|p) - log q(p|x)))",
+                     [enc], goal, signature="IWLS:monolithic-ratio", replay=replay, expand_logs=True, timeout_s=240, twin=False)
+    ob1.probe_on_unknown = True
+    # ob2 (the ratio for an arbitrary proposal, proposal term generalised) is a rational-function identity in 17 variables that z3/nlsat does not
+    # close within minutes; the ratio is decided by the modular glue obligations above instead.  Kept for reference, not registered.
+    return [ob1]
+
+
 def iwls_multikey(chk):
     """IWLS on a block of two keys listed in non-alphabetical order: flat coordinates follow ravel_pytree (a0, a1, b)"""
     import liesel.goose as gs
@@ -402,10 +562,15 @@ def main():
     dims = [1, 2] if chk.tier == "quick" else [1, 2, 3]
     for n in dims:
         obs += lemmas(chk, n)
-    for n in ([2] if chk.tier == "quick" else [1, 2, 3]):
-        obs += iwls_glue(chk, n, user_chol=False)
-    obs += iwls_glue(chk, 2, user_chol=True)
-    obs += iwls_multikey(chk)
+    # the modular glue needs the kernel to call iwls_utils.solve / mvn_sample / mvn_log_prob by these names; if a refactoring removes them the
+    # glue is reported as not applicable (inconclusive) and only the whole-transition obligation below speaks
+    for nm, fn, args in [(f"iwls-glue:{n}", iwls_glue, (chk, n, False)) for n in ([2] if chk.tier == "quick" else [1, 2, 3])] + [("iwls-glue:user-chol", iwls_glue, (chk, 2, True)),
+                                                                                                                            ("iwls-multikey", iwls_multikey, (chk,))]:
+        try:
+            obs += fn(*args)
+        except AttributeError as ex:
+            chk.harness_error(nm, f"modular IWLS glue not applicable to this tree (callee names changed?): {ex}")
+    obs += iwls_monolithic(chk)
     obs += rw_glue(chk)
     obs += mh_glue(chk)
     obs += mh_fp32(chk)
